@@ -35,7 +35,13 @@ fn ch() -> impl Strategy<Value = String> {
     ]
 }
 
-fn text() -> impl Strategy<Value = String> { proptest::collection::vec(ch(), 1..12).prop_map(|v| v.concat()) }
+fn text() -> impl Strategy<Value = String> {
+    prop_oneof![
+        30 => proptest::collection::vec(ch(), 1..12).prop_map(|v| v.concat()),
+        // long names / values (up to about 1 KiB so that a map still fits the request buffer), single- and multi-byte characters
+        1 => crate::fw::greq::long_text().prop_map(|b| { let s: String = String::from_utf8_lossy(&b.0).chars().filter(|c| !c.is_whitespace() || *c == ' ').collect(); let s = s.trim().to_string(); let cut: String = s.chars().take(600).collect(); if cut.is_empty() { "x".to_string() } else { cut } }),
+    ]
+}
 
 fn case_strategy() -> impl Strategy<Value = Case> {
     proptest::collection::vec((text(), text()), 0..20).prop_map(|v| {
